@@ -351,14 +351,12 @@ theorem skipMarkers_le (m : CMod) (dir start : Int) (hd : dir < 0) (n : Nat) (po
   | zero => simp [skipMarkers] at h
   | succ k ih =>
     unfold skipMarkers at h
-    split at h
-    · simp only [hd, if_true] at h
-      split at h
-      · have := ih _ h; omega
-      · have : pos = r := by simpa using h
-        omega
-    · have : pos = r := by simpa using h
-      omega
+    by_cases hc : m.marker = true ∧ m.xxoAt pos = 0xfe
+    · rw [if_pos hc, if_pos hd] at h
+      by_cases hp : pos > start
+      · rw [if_pos hp] at h; have := ih _ h; omega
+      · rw [if_neg hp] at h; injection h with h; omega
+    · rw [if_neg hc] at h; injection h with h; omega
 
 theorem skipMarkers_ge (m : CMod) (dir start : Int) (hd : ¬ dir < 0) (n : Nat) (pos r : Int)
     (h : skipMarkers m dir start n pos = some r) : pos ≤ r := by
@@ -366,14 +364,12 @@ theorem skipMarkers_ge (m : CMod) (dir start : Int) (hd : ¬ dir < 0) (n : Nat) 
   | zero => simp [skipMarkers] at h
   | succ k ih =>
     unfold skipMarkers at h
-    split at h
-    · simp only [hd, if_false] at h
-      split at h
-      · have : pos + 1 = r := by simpa using h
-        omega
-      · have := ih _ h; omega
-    · have : pos = r := by simpa using h
-      omega
+    by_cases hc : m.marker = true ∧ m.xxoAt pos = 0xfe
+    · rw [if_pos hc, if_neg hd] at h
+      by_cases hp : pos + 1 ≥ m.len
+      · rw [if_pos hp] at h; injection h with h; omega
+      · rw [if_neg hp] at h; have := ih _ h; omega
+    · rw [if_neg hc] at h; injection h with h; omega
 
 theorem skipInvalid_ge (m : CMod) (n : Nat) (pos : Int) : pos ≤ skipInvalid m n pos := by
   induction n generalizing pos with
